@@ -27,6 +27,7 @@ type Obligation struct {
 	prefix  int
 	pc      string
 	goal    string
+	extra   []string
 	Props   []string `json:"props"`
 	Trivial bool     `json:"trivial"`
 }
@@ -76,6 +77,17 @@ type FuncExec struct {
 	usedCallSites map[*CallSiteSpec]bool
 	guardOnly bool
 	heldOnEntry map[string]bool
+	lockOrds map[ssa.Instruction]int
+	quantsOf map[string][]quantRec
+	qfacts   []qfact
+}
+
+// qfact: an assumed clause containing universally quantified parts the engine may instantiate.
+type qfact struct {
+	prefix int
+	pc     string
+	clause string
+	recs   []quantRec
 }
 
 type retRec struct {
@@ -124,6 +136,8 @@ func (fx *FuncExec) oblige(kind string, st *State, goal string, desc string, pos
 	if goal == "true" {
 		ob.Trivial = true
 	}
+	fx.skolemize(st, ob)
+	ob.prefix = len(fx.em.lines) // hint evaluation may have added definitions
 	ob.Model = map[string]string{}
 	for k, v := range fx.modelTerms {
 		ob.Model[k] = v
@@ -133,6 +147,66 @@ func (fx *FuncExec) oblige(kind string, st *State, goal string, desc string, pos
 
 func (fx *FuncExec) assume(st *State, fact string) {
 	fx.em.Assert(imp(st.pc, fact))
+	if recs, ok := fx.quantsOf[fact]; ok && fx.discard == 0 {
+		fx.qfacts = append(fx.qfacts, qfact{prefix: len(fx.em.lines), pc: st.pc, clause: fact, recs: recs})
+	}
+}
+
+// skolemize replaces the positively occurring universal quantifiers of a goal by fresh constants
+// and instantiates the quantified assumptions made so far at those constants (and at the constants
+// shifted by the contract's `inst` hints): E-matching does not solve the index arithmetic that
+// re-slicing and appending introduce, so the engine supplies these instances itself. Every added
+// line is a consequence of an assumption already present; the goal is replaced by an instance of
+// itself over an arbitrary constant - both steps are sound.
+func (fx *FuncExec) skolemize(st *State, ob *Obligation) {
+	recs, ok := fx.quantsOf[ob.goal]
+	if !ok {
+		return
+	}
+	var hints []string
+	if fx.fc != nil {
+		env := fx.specEnv(st, fx.entry)
+		for _, h := range fx.fc.Inst {
+			func() {
+				defer func() { recover() }() // a hint that cannot be evaluated here is simply not used
+				e2 := *env
+				e2.clauseSrc = h.Src
+				v := fx.evalSpec(&e2, h.Expr)
+				if v.Sort == SInt {
+					hints = append(hints, v.S)
+				}
+			}()
+		}
+	}
+	goal := ob.goal
+	var terms []string
+	for i, r := range recs {
+		sk := fmt.Sprintf("|sk%d!%d|", i, fx.em.n)
+		fx.em.n++
+		ob.extra = append(ob.extra, fmt.Sprintf("(declare-const %s Int)", sk))
+		goal = strings.Replace(goal, r.text, strings.ReplaceAll(r.body, r.bound, sk), 1)
+		terms = append(terms, sk)
+		for _, h := range hints {
+			terms = append(terms, "(+ "+sk+" "+h+")", "(- "+sk+" "+h+")")
+		}
+	}
+	ob.goal = goal
+	n := 0
+	for _, qf := range fx.qfacts {
+		if qf.prefix > ob.prefix {
+			continue
+		}
+		for _, r := range qf.recs {
+			for _, t := range terms {
+				inst := strings.Replace(qf.clause, r.text, strings.ReplaceAll(r.body, r.bound, t), 1)
+				ob.extra = append(ob.extra, "(assert "+imp(qf.pc, inst)+")")
+				n++
+				if n > 400 {
+					return
+				}
+			}
+		}
+	}
 }
 
 // ---- entry ------------------------------------------------------------------------------------------
@@ -317,7 +391,7 @@ func (fx *FuncExec) runBody() {
 				}
 			}
 			t := fx.evalBool(env, r)
-			fx.em.Assert(t)
+			fx.assume(st, t)
 		}
 	}
 	fx.entry = st.Clone()
